@@ -214,6 +214,9 @@ def main():
     ap.add_argument('--limit', type=int, default=0)
     ap.add_argument('--stride', type=int, default=1)
     ap.add_argument('--list', action='store_true')
+    ap.add_argument('--second-pass', action='store_true',
+                    help='run the checks NOT mapped to the file on the '
+                         'mutants that survived the first pass')
     a = ap.parse_args()
     jobs = []
     idx = 0
@@ -231,6 +234,17 @@ def main():
             idx += 1
             jobs.append((idx, rel, lineno, desc, new_src, checks.split(),
                          a.procs))
+    if a.second_pass:
+        ALL = [f'C{i:02d}' for i in range(1, 21)]
+        alive = {}
+        for ln in open(a.out):
+            r = json.loads(ln)
+            if r['outcome'] == 'survived':
+                alive[(r['file'], r['line'], r['mutation'], r['id'])] = r
+        jobs = [(j[0], j[1], j[2], j[3], j[4],
+                 [c for c in ALL if c not in j[5]], j[6])
+                for j in jobs if (j[1], j[2], j[3], j[0]) in alive]
+        a.out = a.out.replace('.jsonl', '.pass2.jsonl')
     jobs = jobs[::a.stride]
     if a.limit:
         jobs = jobs[:a.limit]
